@@ -228,9 +228,16 @@ def check_relabel(rng, acc):
     import networkx as nx
 
     g = nx.DiGraph()
-    for n, t in times.items():
+    order_ = list(times.items())
+    if rng.random() < 0.5:
+        rng.shuffle(order_)  # nodes need not have been inserted in time order (edits, undo)
+        acc["counters"]["relabel-nodes-not-in-time-order"] = \
+            acc["counters"].get("relabel-nodes-not-in-time-order", 0) + 1
+    for n, t in order_:
         g.add_node(n, time=t, seg_id=seg_ids[n])
-    g.add_edges_from(edges)
+    es_ = list(edges)
+    rng.shuffle(es_)
+    g.add_edges_from(es_)
     src = seg.copy()
     with warnings.catch_warnings():
         warnings.simplefilter("ignore")
@@ -304,7 +311,7 @@ def floors(tier):
             "unique-with-empty-frame-before-labels": 300, "relabel-with-division": 200,
             "relabel-with-unused-detections": 300, "unique-multiseg-3d": 100,
             "unique-with-a-frame-without-background": 100,
-            "unique-non-contiguous-input": 1000, "relabel-again-after-rewiring": 500}
+            "unique-non-contiguous-input": 1000, "relabel-nodes-not-in-time-order": 1000, "relabel-again-after-rewiring": 500}
 
 
 def replay(doc):
@@ -330,9 +337,16 @@ def replay(doc):
     seg_ids = {int(k): v for k, v in doc["seg_ids"].items()}
     edges = [tuple(e) for e in doc["edges"]]
     g = nx.DiGraph()
-    for n, t in times.items():
+    order_ = list(times.items())
+    if rng.random() < 0.5:
+        rng.shuffle(order_)  # nodes need not have been inserted in time order (edits, undo)
+        acc["counters"]["relabel-nodes-not-in-time-order"] = \
+            acc["counters"].get("relabel-nodes-not-in-time-order", 0) + 1
+    for n, t in order_:
         g.add_node(n, time=t, seg_id=seg_ids[n])
-    g.add_edges_from(edges)
+    es_ = list(edges)
+    rng.shuffle(es_)
+    g.add_edges_from(es_)
     out = relabel_segmentation_with_track_id(g, seg.copy())
     probs = relabel_problems(times, seg_ids, edges, seg, np.asarray(out))
     return [{"clause": "relabel-by-track", "what": str(probs[:3]),
